@@ -41,6 +41,10 @@ def bases(quick):
         out.append(("mm/occ2", decl, mm, {"K": ["uniform_occupancy(A.2)", "uniform_occupancy(A.1)"]}, [["M"], levels("K", 2), ["N"]], e2))
         out.append(("mm/shape-occ", decl, mm, {"K": ["uniform_shape(2)", "uniform_occupancy(A.1)"]}, [["M"], levels("K", 2), ["N"]], e2))
         out.append(("mm/shape2", decl, mm, {"K": ["uniform_shape(2)", "uniform_shape(1)"]}, [["M"], levels("K", 2), ["N"]], e2))
+    dew = {"A": ["M", "N"], "B": ["M", "N"], "Z": ["M", "N"]}
+    ew = E("Z", ["m", "n"], times(T("A", "m", "n"), T("B", "m", "n")))
+    out.append(("ew/flat", dew, ew, {"(M, N)": ["flatten()"]}, [["MN"]], {"M": 2, "N": 2}))
+    out.append(("ew/flat-occ", dew, ew, {"(M, N)": ["flatten()"], "MN": ["uniform_occupancy(A.2)"]}, [["MN1", "MN0"]], {"M": 2, "N": 2}))
     d2 = {"A": ["K", "M"], "B": ["K", "M"], "C": ["K"], "Z": ["M"]}
     out.append(("mm3", d2, E("Z", ["m"], times(T("A", "k", "m"), T("B", "k", "m"), T("C", "k"))), None, [["M"], ["K"]], {"K": 2, "M": 2}))
     d3 = {"A": ["M"], "B": ["M"], "Z": ["M"]}
